@@ -133,6 +133,8 @@ class Lin:
         mn, ops = i.mn, i.ops
         if is_cond_jump(mn) or mn in ('jmp', 'ret', 'nop', 'endbr64', 'cmp', 'test', 'vzeroupper') or mn.startswith(('prefetch', 'bt')) or not ops:
             return
+        if mn in ('or', 'and') and len(ops) == 2 and ops[0] == ops[1] and REG64.get(ops[0], (None, 0))[1] == 64:
+            return          # flag-setting idiom, the register keeps its value
         fresh = {('v', i.addr): 1}
         if mn == 'push':
             rsp = add(self.reg(st, 'rsp'), {1: -8})
